@@ -204,11 +204,13 @@ def run_case(desc):
     pathkind = r.choice(["str", "pathlib"])
     enc = None
     if kind == "text":
-        enc = r.choice([None, "utf-8", "utf-16", "utf-8-sig", "latin-1", "ascii", "utf-32"])
-        value = rand_text(r, enc)
+        enc = r.choice([None, "utf-8", "utf-16", "utf-8-sig", "latin-1", "ascii", "utf-32", "cp037", "utf-7", "cp1252", "utf-16-be"])
+        value = rand_text(r, {"cp037": "latin-1", "cp1252": "ascii", "utf-7": None, "utf-16-be": None}.get(enc, enc))
         make = lambda p: st.TextFileStore(p, encoding=enc)
     elif kind == "json":
-        enc = r.choice([None, None, "utf-8", "utf-16", "latin-1"])
+        # the JSON text itself is ASCII (ensure_ascii), so any codec that can encode ASCII is a legal `encoding` - including those whose
+        # ASCII characters are not ASCII bytes (EBCDIC) or that are stateful (utf-7, hz)
+        enc = r.choice([None, None, "utf-8", "utf-16", "latin-1", "utf-32", "cp037", "cp500", "utf-7", "shift_jis", "hz", "utf-16-le", "cp1252"])
         value = rand_json(r)
         make = lambda p: st.JsonFileStore(p, encoding=enc)
     elif kind == "binary":
